@@ -16,6 +16,11 @@ def run(ck):
     impl_again = wv.run_lines([exe], lines[::5], env=env)     # determinism: same (P,key,modes,seed,T) twice
     spec = wv.run_lines([mdrv, "spec"], lines, env=env)
     model = wv.run_lines([mdrv], lines, env=env)
+    # the header + IV area as the TRANSLATED SOURCE writes it (FileHeader(...), runcrypt::prepare_IV under MiniC)
+    hlines = ["e%d hdr %d %d %d %s %s" % (i, c.T, c.cm, c.hm, c.key.hex(), c.seed.hex()) for i, c in enumerate(cases)]
+    srch = wv.run_lines([mdrv, "src"], hlines, shards=wv.NCPU, env=env)
+    ck.cov["src_evaluations"] = len(srch)
+    srcbad = 0
     dist = ck.cov.setdefault("case_classes", {})
     distinct, corr, last = set(), 0, None
     for i, c in enumerate(cases):
@@ -45,10 +50,20 @@ def run(ck):
             if head != model.get("e%d" % i):
                 corr += 1
                 last = rep
+            sh = srch.get("e%d" % i)
+            if sh is not None and head.startswith("OK "):
+                f = head.split()[1]
+                hl = 2 * (48 + 20 * c.T)
+                want = f[:20] + "00" * 38 + f[96:hl]
+                if sh != want:
+                    srcbad += 1
+                    corr += 1
+                    last = dict(rep, translated_source_header=sh[:400], implementation_header_with_zero_tag=want[:400])
         if len(ck.cov["samples"]) < 6:
             ck.cov["samples"].append({"n": c.n, "cmode": c.cm, "hmode": c.hm, "T": c.T, "class": c.cls, "file_prefix": head[:100], "equals_spec": head == sp})
     ck.cov["distinct_nontrivial"] = len(distinct)
     ck.cov["disagreements_model_vs_impl"] = corr
+    ck.cov["disagreements_source_vs_impl"] = srcbad
     if corr and not ck.violations:
         last["broken"] = "correspondence enc model vs implementation"
         ck.violation("correspondence model/implementation no longer checks (%d cases) although the output equals the spec" % corr, last, found_input=False)
